@@ -626,6 +626,9 @@ func vpTokenText() string {
 	if vpMintClaims != nil {
 		t += vpMintClaims.Subject
 	}
+	if vpMintPrivate != nil {
+		t += "." + vpMintPrivate.RemoteServer + "." + vpMintPrivate.ClientIP + "." + vpMintPrivate.AccessToken
+	}
 	return t
 }
 
